@@ -509,9 +509,14 @@ def run(ctx):
         "black-box scenarios swap the package variable clientIDAddrMap for a small-capacity map before Transport.Listen; "
         "gorilla/websocket, kcp-go, smux carry the sessions and are not modelled; a session's further streams (t-events) are "
         "opened one at a time and the next connection the listener hands out is taken to be that stream's",
+        "burst scenarios: the KCP clients' first packets are held back and delivered together - into the server's "
+        "QueuePacketConn (reached in-package through the listener's http.Server handler), under runtime.GOMAXPROCS(1) in one "
+        "mode, or through the carriers; each stream is attributed to its session by a tag its client writes first",
     ]
     ctx.assumptions += [
-        "models = coq/Model/ClientIdRing.v, ClientAddr.v, ServerCarrier.v (hand written); tie = correspondence on generated cases",
+        "models = coq/Model/ClientIdRing.v, ClientAddr.v, ServerCarrier.v, ServerAccept.v (hand written); tie = correspondence on generated cases",
+        "bursts: the model runs the accept-loop machine under a start order drawn by the generator, the Go runtime picks its own; "
+        "C18_burst_order_irrelevant (no carrier starts during a burst) is why the answers must agree",
         "ClientIDs are exactly 8 bytes (turbotunnel.ClientID)",
     ]
     lines, kinds = gen_ring(ctx)
